@@ -150,6 +150,11 @@ class Prop(PropBase):
                         a2 = {"frac": -c["args"]["frac"]}
                     c["args2"] = a2
                     yield c
+        # one very long record per FFT-based family (thorough tier only: ~1 GB, a minute): float32 intermediates stop counting
+        # samples exactly beyond 2^24, which no short record can show
+        if not quick:
+            for which in ("freq_shift", "time_shift"):
+                yield {"op": "huge", "which": which, "N": 2**24 + 4096, "sched": "sync", "chunks": [[2**24 + 4096]], "cls": "BasebandSignal"}
         # reader calls: read(..., use_dask=True, chunks=...) of real-sample VDIF, complex DADA and a custom reader against the
         # eager read, for chunk layouts that split the time axis and/or the sample axes
         for _ in range(10 if quick else 200):
@@ -308,6 +313,8 @@ class Prop(PropBase):
             return self._run_graph(c)
         if c["op"] == "reader":
             return self._run_reader(c)
+        if c["op"] == "huge":
+            return self._run_huge(c)
         z = self._make(c)
         counter = [0]
         zd = self._dask_version(z, c["chunks"], counter)
@@ -415,6 +422,31 @@ class Prop(PropBase):
         other = "threads" if c["sched"] != "threads" else "sync"
         comp2 = r_d.compute(**self._sched(other))
         out["sched_diff"] = self._close(comp2.data, comp.data, False)
+        return out
+
+    def _run_huge(self, c):
+        np, da, pb = self.np, self.da, self.pb
+        import astropy.units as u
+        N = c["N"]
+        g = np.random.default_rng(5)
+        x = (g.standard_normal((N, 1), dtype=np.float32) + 1j * g.standard_normal((N, 1), dtype=np.float32)).astype(np.complex64)
+        z = pb.BasebandSignal(x, sample_rate=1 * u.MHz, center_freq=1 * u.GHz)
+        zd = pb.BasebandSignal(da.from_array(x, chunks=(-1, 1)), sample_rate=1 * u.MHz, center_freq=1 * u.GHz)
+        f = (lambda s: pb.freq_shift(s, 12345.678 * u.Hz)) if c["which"] == "freq_shift" else (lambda s: pb.time_shift(s, 1000.25))
+        r_np = f(z)
+        r_d = f(zd)
+        out = {"np_backing": "d" if isinstance(r_np.data, da.Array) else "n", "res_dask": isinstance(r_d.data, da.Array),
+               "attrs_lazy": bool(r_d.shape == r_np.shape and r_d.dtype == r_np.dtype)}
+        comp = r_d.compute(scheduler="synchronous")
+        out["comp_backing"] = "d" if isinstance(comp.data, da.Array) else "n"
+        out["same_attrs"] = bool(type(comp) is type(r_np) and comp.shape == r_np.shape and comp.dtype == r_np.dtype
+                                 and comp.sample_rate == r_np.sample_rate and comp.center_freq == r_np.center_freq)
+        a, b = np.asarray(comp.data), np.asarray(r_np.data)
+        tail = slice(2**24 - 8, None)            # the part of the record beyond 2^24 samples, and all of it in chunks
+        err = max(float(np.max(np.abs(a[tail] - b[tail]))), float(np.max(np.abs(a[::4099] - b[::4099]))))
+        scale = float(np.max(np.abs(b[::4099]))) or 1.0
+        out["diff"] = None if err <= 1e-4 * scale else f"values differ by {err:.3g} (scale {scale:.3g}) on a record of {N} samples"
+        out["after_count"] = 1
         return out
 
     def _run_reader(self, c):
@@ -584,6 +616,8 @@ class Prop(PropBase):
             if code.get("lazy_count", 0) != 0:
                 return f"building the pb.fft graph materialised the input ({code['lazy_count']} block reads)"
             return code.get("diff") and f"pb.fft.{c['args']['fn']}: {code['diff']} (chunks {c['chunks']})"
+        if c["op"] == "huge":
+            c = dict(c, op=c["which"] + " on a very long record", args={}, N=c["N"])
         if c["op"] == "reader":
             c = dict(c, cls=c["kind"] + " reader", op=f"{c['entry']}({c['offset']}, {c['n']}, chunks={'default' if c['default_chunks'] else c['tchunks']})")
             # (whether the requested/default chunk layout is honoured is observed, not judged: the property is about values,
